@@ -85,6 +85,15 @@ CLAIMED = {
         note="log/sqrt/pow10/products uninterpreted and shared with the reference; ties of V free; longer sranges outside. "
              "Trusted: pysym, z3, contracts.",
         technique="differential symbolic execution + z3 UF/LRA order reasoning; regime-2 constant-tree evaluation for lc", ref="5 C04"),
+    "C05": dict(
+        text="Bounded symbolic verification: ws2dwcv / ws2dwcvp (non-robust) executed next to a reference GCV score written from the "
+             "statement; z3 decides that the reported lambda is a grid value minimising the score and that the band is the fixed "
+             "smoother at it (symbolic grids of 2..4(5) entries, every gap pattern with >= 5 valid cells, n = 5..6/7). Robust mode: "
+             "every division / sqrt in the reweighting is an obligation (a zero MAD is found as a satisfying assignment and replayed "
+             "on constant / linear / flat-with-spikes series); whitswcv defaults, dispatch, naming and float32 sgrid.",
+        note="Scores as opaque values shared with the reference; robust placeholder independence is C02; equality with a reference robust "
+             "loop not encoded. Known finding C05-robust-mad-zero is reported, not suppressed elsewhere. Trusted: pysym, z3.",
+        technique="differential symbolic execution + z3 UF/LRA order reasoning; division obligations", ref="5 C05"),
 }
 
 NOT_APPLICABLE = {
